@@ -461,3 +461,14 @@ Qed.
 Theorem legacy_position_independent c ops a :
   aget a (l_pos (l_final c l_init ops)) = aget a (l_pos (l_final c l_init (filter (l_names a) ops))).
 Proof. rewrite !legacy_position_last_assigned. apply l_track_filter. Qed.
+
+Theorem legacy_neighbors_nodup c (m : amap) q r ic :
+  NoDup (akeys m) -> NoDup (spec_neighbors c m q r ic).
+Proof.
+  intros H. unfold spec_neighbors, neighbors_of. rewrite combine_fst_snd.
+  apply (NoDup_flat_map_select (@fst Z point)
+           (fun ar => (dist2 (lc_torus c) (lc_bounds c) (snd ar) q <=? r * r)
+                      && (ic || (dist2 (lc_torus c) (lc_bounds c) (snd ar) q >? 0)))).
+  exact H.
+Qed.
+
